@@ -164,9 +164,8 @@ example : (sysRun demoCfg demoEvs).out =
     message (under the same fresh id) iff they agree on kind, address, PID and — for a read — the
     access size, — for a write — data and dirty mask. So these fields arrive unchanged, and nothing
     else of the request influences what the lower level sees: not `CanWaitForCoalesce`, not the
-    requester's id or port, not a write's `AccessByteSize` field nor a read's data/mask (the Go
-    `Info` field is not part of the model's `Req` at all: `duplicateReadReq`/`duplicateWriteReq`
-    never read it). -/
+    requester's id or port, not a write's `AccessByteSize` field nor a read's data/mask (for `Info` and
+    the requester's `TrafficBytes` see `info_not_forwarded`). -/
 theorem forwarded_fields_exact (n : Nat) (r r' : Req) :
     dupReq n r = dupReq n r' ↔
       (r.write = r'.write ∧ r.addr = r'.addr ∧ r.pid = r'.pid ∧
@@ -177,6 +176,22 @@ theorem forwarded_fields_exact (n : Nat) (r r' : Req) :
 
 example : dupReq 3 ((demoReq 64 false).toReq 0) = dupReq 3 { (demoReq 64 false).toReq 9 with cwc := false, src := 7, data := [1], mask := [true] } ∧
     dupReq 3 ((demoReq 64 false).toReq 0) ≠ dupReq 3 ((demoReq 68 false).toReq 0) := by decide
+
+/-- **`Info` and `TrafficBytes` are not forwarded** (model with these fields: `ReqX`, `dupReqX`,
+    tied to the real ROB by the `c15 fields` cases): the forwarded message has `Info = nil`, its
+    `TrafficBytes` is recomputed from the forwarded data, and two extended requests are forwarded
+    alike iff their plain parts are — `Info` / `TrafficBytes` of the request have no influence. -/
+theorem info_not_forwarded (n : Nat) (x y : ReqX) :
+    (dupReqX n x).info = 0 ∧ (dupReqX n x).trafficBytes = 12 + (if x.req.write then x.req.data.length else 0) ∧
+    (dupReqX n x = dupReqX n y ↔ dupReq n x.req = dupReq n y.req) := by
+  refine ⟨rfl, ?_, ?_⟩
+  · simp only [dupReqX, dupReq]; split <;> simp
+  · constructor
+    · intro h; exact congrArg BReqX.b h
+    · intro h; simp only [dupReqX, h]
+
+example : dupReqX 1 ⟨(demoReq 64 true).toReq 0, 7, 99⟩ = dupReqX 1 ⟨(demoReq 64 true).toReq 5, 0, 16⟩ ∧
+    (dupReqX 1 ⟨(demoReq 64 true).toReq 0, 7, 99⟩).trafficBytes = 16 := by decide
 
 /-- `CanWaitForCoalesce` is dropped: every request that ever entered the Bottom port has the flag
     cleared, whatever the requester set (the model prints it as `c=0`; the real ROB is compared on
